@@ -28,6 +28,8 @@ SRC = {
     "u4": dict(freq=[0.05, 0.1, 0.2], dir=[180.0, 270.0, 0.0, 90.0]),
     "o6": dict(freq=[0.08, 0.12, 0.3], dir=[15.0, 75.0, 135.0, 195.0, 255.0, 315.0]),
     "dup": dict(freq=[0.1, 0.2, 0.3], dir=[0.0, 90.0, 180.0, 270.0, 360.0]),
+    "desc4": dict(freq=[0.05, 0.1, 0.2], dir=[270.0, 180.0, 90.0, 0.0]),          # stored in descending order
+    "int4": dict(freq=[0.05, 0.1, 0.2], dir=[0, 90, 180, 270]),                       # integer direction coordinate
 }
 TGT = {
     "same": None,
@@ -38,6 +40,8 @@ TGT = {
     "fine_freq": dict(freq=[0.05, 0.075, 0.1, 0.15, 0.2]),
     "ext_freq": dict(freq=[0.02, 0.05, 0.1, 0.2, 0.45, 0.6]),
     "both": dict(freq=[0.03, 0.1, 0.15, 0.5], dir=[355.0, 5.0, 95.0, 185.0, 275.0]),
+    "frac_dir": dict(dir=[7.5, 22.5, 100.25, 359.5]),
+    "frac_both": dict(freq=[0.0625, 0.11], dir=[7.5, 200.75]),
 }
 
 
@@ -45,6 +49,9 @@ def _src(env, name):
     g = SRC[name]
     f, d = np.array(g["freq"]), np.array(g["dir"])
     da, vals = mk_spec(env, (f, d))
+    if d.dtype.kind in "iu":
+        da = da.assign_coords(dir=d)      # keep the integer dtype of the coordinate
+        d = d.astype(float)
     if name == "dup":
         # a duplicated 0/360 bin carries the same data
         vals[:, 4] = vals[:, 0]
@@ -116,6 +123,7 @@ def _targets(name, f, d):
 QUICK = [dict(src="s4", tgt=t, m0=False) for t in ("same", "near", "fine_dir", "seam_dir", "ext_freq", "both")] + [dict(src="o6", tgt="near", m0=True)] + \
         [dict(src="u4", tgt=t, m0=False) for t in ("same", "seam_dir", "shift_dir")] + \
         [dict(src="dup", tgt=t, m0=False) for t in ("fine_dir", "seam_dir")] + \
+        [dict(src="int4", tgt=t, m0=False) for t in ("frac_dir", "frac_both")] + [dict(src="desc4", tgt="frac_dir", m0=False)] + \
         [dict(src="s4", tgt="both", m0=True), dict(src="u4", tgt="fine_freq", m0=True), dict(src="o6", tgt="coarse_dir", m0=True), dict(src="s4", tgt="same", m0=True)]
 THOROUGH = [dict(src=s, tgt=t, m0=m) for s in ("o6", "u4", "dup") for t in ("same", "fine_dir", "coarse_dir", "shift_dir", "fine_freq", "ext_freq", "both") for m in (False, True)]
 THOROUGH = [p for p in THOROUGH if p not in QUICK]
@@ -168,10 +176,10 @@ def regrid(env, src, tgt, m0):
             env.claim(AND(*[out.values[i][j] == 0 for j in range(len(od))]), "zero energy above the highest source frequency")
 
 
-ROT = {"s4": [90.0, 180.0, 360.0, -90.0, 45.0, 97.3, -26.5], "u4": [90.0, 360.0, 45.0], "o6": [60.0, 120.0, -60.0, 30.0, 360.0, 97.3]}
+ROT = {"s4": [90.0, 180.0, 360.0, -90.0, 45.0, 97.3, -26.5], "u4": [90.0, 360.0, 45.0], "o6": [60.0, 120.0, -60.0, 30.0, 360.0, 97.3], "desc4": [90.0, -90.0, 45.0], "int4": [90.0, 30.0]}
 
 
-@harness(P, quick=[dict(src=s, angle=a) for s in ("s4", "u4") for a in ROT[s]], thorough=[dict(src="o6", angle=a) for a in ROT["o6"]])
+@harness(P, quick=[dict(src=s, angle=a) for s in ("s4", "u4", "desc4", "int4") for a in ROT[s]], thorough=[dict(src="o6", angle=a) for a in ROT["o6"]])
 def rotate(env, src, angle):
     """rotate by whole bins == circular shift, by 360 == identity; any angle keeps coordinates, Hs and non-negativity."""
     da, vals, f, d = _src(env, src)
